@@ -520,5 +520,36 @@ class NPProxy:
         a.fill(0.0)
         return a.view(_scalar_slots(s._np))
 
+    _uninit = [0]
+
+    def empty(s, shape, dtype=None, **kw):
+        # uninitialised memory is an ARBITRARY value: every element is a fresh symbol, so a result that depends on an element
+        # the code never assigns keeps that symbol and fails its contract
+        a = s._np.empty(shape, dtype=object)
+        for idx in s._np.ndindex(a.shape):
+            NPProxy._uninit[0] += 1
+            a[idx] = Sym(z3.Real('UNINIT_%d' % NPProxy._uninit[0]))
+        return a.view(_scalar_slots(s._np))
+
+    def empty_like(s, proto, dtype=None, **kw):
+        return s.empty(s._np.shape(proto))
+
+    def ones(s, shape, dtype=None, **kw):
+        a = s._np.empty(shape, dtype=object)
+        a.fill(1.0)
+        return a.view(_scalar_slots(s._np))
+
+    def zeros_like(s, proto, dtype=None, **kw):
+        return s.zeros(s._np.shape(proto))
+
+    def eye(s, n, *a_, **kw):
+        a = s.zeros((n, n))
+        for i in range(n):
+            a[i, i] = 1.0
+        return a
+
+    def identity(s, n, *a_, **kw):
+        return s.eye(n)
+
     def array(s, obj, *a, **kw):
         return s._np.array(obj, *a, **kw)
